@@ -166,7 +166,7 @@ public:
             // or an account the checker does not know, with the empty password), then bind and a stanza to the victim
             const qint64 c = r.uniform(3);
             const qint64 u = r.weighted({ 25, 25, 25, 25 });
-            const qint64 kind = r.weighted({ 60, 40 });
+            const qint64 kind = r.weighted({ 50, 30, 0, 20 });
             auto add = [&](const QString &k, QVector<qint64> a) { p.ops.append(mkop(k, a, {}, (quint32)r.next())); };
             add(QStringLiteral("open"), { c, 0 });
             add(QStringLiteral("pump"), {});
@@ -197,7 +197,7 @@ public:
                 p.ops.append(mkop(QStringLiteral("auth"), { c, r.weighted({ 60, 25, 8, 7 }), (qint64)r.weighted({ 30, 30, 30, 10 }), r.weighted({ 45, 40, 15 }), (qint64)r.chance(0.3) }, {}, salt));
                 break;
             case 2:
-                p.ops.append(mkop(QStringLiteral("response"), { c, r.weighted({ 50, 35, 15 }), (qint64)r.weighted({ 30, 30, 30, 10 }) }, {}, salt));
+                p.ops.append(mkop(QStringLiteral("response"), { c, r.weighted({ 45, 30, 13, 12 }), (qint64)r.weighted({ 30, 30, 30, 10 }) }, {}, salt));
                 break;
             case 3:
                 p.ops.append(mkop(QStringLiteral("abort"), { c }, {}, salt));
@@ -591,11 +591,17 @@ public:
                     }
                 } else if (k == QLatin1String("response")) {
                     if (c.opened) {
-                        // kind: 0 DIGEST-MD5 response with the right password, 1 with a wrong one, 2 empty response
+                        // kind: 0 DIGEST-MD5 response with the right password, 1 with a wrong one, 2 empty response,
+                        // 3 a replay: a response that was valid for ANOTHER challenge (right password, foreign nonce) - what somebody
+                        // who recorded a login, but does not know the password, can send
                         const int u = (int)(op.arg(2) % 4);
                         QByteArray data;
                         if (op.arg(1) != 2) {
-                            const QByteArray user = kUsers[u], realm = "example.org", nonce = c.nonce.toLatin1(), cnonce = "cn" + QByteArray::number((int)r.uniform(100000)), nc = "00000001", uri = "xmpp/example.org";
+                            const bool replay = op.arg(1) == 3;
+                            const QByteArray user = kUsers[u], realm = "example.org", nonce = replay ? QByteArray("bm9uY2Ugb2YgYW5vdGhlciBsb2dpbg==") : c.nonce.toLatin1(), cnonce = "cn" + QByteArray::number((int)r.uniform(100000)), nc = "00000001", uri = "xmpp/example.org";
+                            if (replay) {
+                                res.faults[QStringLiteral("digest_response_replayed_with_foreign_nonce")]++;
+                            }
                             QByteArray pw = kPasswords[u];
                             if (op.arg(1) == 1) {
                                 pw += "x";
@@ -605,7 +611,7 @@ public:
                             data = "username=\"" + user + "\",realm=\"" + realm + "\",nonce=\"" + nonce + "\",cnonce=\"" + cnonce + "\",nc=" + nc + ",qop=auth,digest-uri=\"" + uri + "\",response=" + resp + ",charset=utf-8";
                             if (c.exchangeMech == QLatin1String("DIGEST-MD5")) {
                                 c.exchangeUser = QString::fromLatin1(user);
-                                c.digestResponseValid = op.arg(1) == 0 && !c.nonce.isEmpty();
+                                c.digestResponseValid = op.arg(1) == 0 && !c.nonce.isEmpty();   // a replay (kind 3) proves nothing
                                 // several responses may be in flight in one exchange; the server verifies each against the
                                 // digest of the user it names, so knowing that user's password is what counts
                                 if (c.digestResponseValid) {
